@@ -74,6 +74,13 @@ def cases_for(rng, n, ctx):
             nv = _call(lambda: (oc.gamma_method(S=0), float(oc.dvalue))[1])
             cases.append({'id': 'jx-' + tag, 'ev': 'jack_export', 'obs': po, 'jack': _seq(jk), 'naive': 'nan' if isinstance(nv, Exception) else ratx(nv)})
             jk_before = _seq(jk)
+            # what export returns belongs to the caller: scribbling on it must not reach a later export
+            jk_mine = np.array(jk, dtype=float)
+            jk *= 3.0
+            again = _call(lambda: o.export_jackknife())
+            cases.append({'id': 'jr-' + tag, 'ev': 'frame', 'what': 'a second export_jackknife returns the same samples, whatever the caller did to the first array',
+                          'before': jk_before, 'after': _seq(again) if not isinstance(again, Exception) else []})
+            jk = jk_mine
             back = _call(lambda: pe.import_jackknife(jk, name, idl=[idl if rng.random() < 0.5 else list(idl)]))
             cases.append({'id': 'ji-' + tag, 'ev': 'jack_import', 'obs': po, 'res': _res(back)})
             cases.append({'id': 'jf-' + tag, 'ev': 'frame', 'what': 'import_jackknife leaves the caller\'s samples as they were', 'before': jk_before, 'after': _seq(jk)})
